@@ -95,7 +95,12 @@ def call_sites(prog):
                         name = local_alias[head] + d[len(head):]
                     else:
                         name = d
-                out.append(CallSite(m, enclosing_function(node), node, name))
+                cs = CallSite(m, enclosing_function(node), node, name)
+                # does the first argument name something imported (a module / an imported object)?
+                a0 = dotted(node.args[0]) if node.args and isinstance(node.args[0], (ast.Attribute, ast.Name)) else None
+                cs.arg0_imported = bool(a0) and (a0.split(".")[0] in am or a0.split(".")[0] in local_alias)
+                cs.arg0_plain = bool(a0)
+                out.append(cs)
     return out
 
 
